@@ -89,6 +89,15 @@ def r1_guard(ck, F, d):
         ck.ob(R, f"yield-guarded/{d}", s is not None and b.dominates(t_t, s.bb) and not b.dominates(f_t, s.bb), "the Ok(Some(entry)) exit is reached only through the starts_with == true edge", b, s)
         tup = x.a[0]
         same = tup.k == "agg" and len(tup.a) == 2 and tuple_part(tup.a[0]) == {0} and tuple_part(tup.a[1]) == {1} and cursor_sources(tup.a[0]) == tested and cursor_sources(tup.a[1]) == tested
+        if not same and tup.k != "agg":
+            # the payload of the cursor's Some(entry) handed over whole (entry.filter(..), Some(entry))
+            def _some_payload(y):
+                y = y.strip()
+                if not (y.k == "field" and y.x.get("idx") == 0 and y.a[0].k == "downcast" and y.a[0].x.get("variant") == "Some"):
+                    return False
+                return y.a[0].a[0].strip().k == "call"
+            whole = all(_some_payload(y) for y in flat_alts(tup))
+            same = whole and cursor_sources(tup) == tested
         ck.ob(R, f"yield-is-tested-entry/{d}", same, "the yielded (key, value) are the two parts of the entry whose key was tested", b, s)
     # errors are propagated: every cursor call is followed by `?`
     for s, n, t in cursor_calls(b):
